@@ -1497,4 +1497,33 @@ func ruleC16j(c *Ctx, rule string) {
 		}
 	}
 	c.floor(rule, "byte map decodings in InsertRaw", n, 1)
+	// slicing the raw map with the dimension whitelist is not optional: it must run under a recover barrier
+	m := 0
+	for _, f := range withHelpers(c.P, ir) {
+		for _, call := range calls(f) {
+			if calleeName(call) != "(github.com/getlantern/bytemap.ByteMap).Slice" {
+				continue
+			}
+			m++
+			barrier := false
+			for _, d := range calls(f) {
+				df, isDefer := d.(*ssa.Defer)
+				if !isDefer {
+					continue
+				}
+				var body *ssa.Function
+				switch x := df.Call.Value.(type) {
+				case *ssa.MakeClosure:
+					body, _ = x.Fn.(*ssa.Function)
+				case *ssa.Function:
+					body = x
+				}
+				if body != nil && len(callsTo(body, "builtin recover")) > 0 {
+					barrier = true
+				}
+			}
+			c.check(rule, "InsertRaw: whitelist slicing #"+itoa(m)+" of the raw byte map runs under a recover barrier", call.Pos(), barrier, "the function that calls ByteMap.Slice defers a recover and reports an error", "ByteMap.Slice — which does no bounds checking — is applied to the client's raw dimension map on the caller's goroutine without a recover barrier: with a dimension whitelist configured a truncated or garbled map panics the inserting caller (the RPC insert handler)")
+		}
+	}
+	c.floor(rule, "whitelist slicing of the raw byte map", m, 1)
 }
